@@ -178,7 +178,7 @@ def _assigned_names(stmt) -> set:
     return out
 
 
-def env_at(node: ast.AST, func: ast.AST, keep_params: bool = True, loop_elems: bool = False) -> dict:
+def env_at(node: ast.AST, func: ast.AST, keep_params: bool = True, loop_elems: bool = False, opaque=()) -> dict:
     """Resolution environment that holds just before ``node`` executes inside ``func``:
     straight-line assignments on the path from the function entry are applied in order; names
     assigned inside preceding compound statements (if / for / while / with / try) are dropped
@@ -230,7 +230,7 @@ def env_at(node: ast.AST, func: ast.AST, keep_params: bool = True, loop_elems: b
             before = dict(env)
             env = run_block([s], env)
             for nm in list(env):
-                if nm in params:
+                if nm in params or nm in opaque:
                     # a reassigned parameter keeps its name (but invalidates what was derived from the old value)
                     env.pop(nm)
             if isinstance(s, ast.AugAssign) and isinstance(s.target, ast.Name):
